@@ -3,6 +3,7 @@ package main
 import (
 	"fmt"
 	"go/token"
+	"go/types"
 	"strings"
 
 	"golang.org/x/tools/go/ssa"
@@ -156,6 +157,7 @@ type Lit struct {
 	Val  bool
 	At   ssa.Instruction
 	Pure bool // the condition reads memory only (two evaluations on one path agree unless a store intervenes)
+	Inl  bool // the branch belongs to an inlined helper
 }
 
 func (l Lit) String() string {
@@ -228,6 +230,8 @@ type EnumOpts struct {
 	NoPrune bool
 	// NoLoopExit ends a path at the first back edge instead of leaving inner loops.
 	NoLoopExit bool
+	// Inline enables the inlining of module helpers (World.inlinable).
+	Inline bool
 }
 
 type EnumResult struct {
@@ -313,6 +317,12 @@ func canonAtom(op, l, r string, val bool) (Atom, bool) {
 // EnumPaths enumerates the acyclic paths of fn (or of a region of it). An inner loop is
 // traversed once and then left through its exit edge (second visit of its header takes only
 // successors that are not on the path yet); a third visit ends the path as "backedge".
+//
+// Calls of small module helpers (World.inlinable) are inlined: the call is recorded as an
+// effect, then the callee's literals and effects follow in program order with the callee's
+// parameters bound to the caller's argument values, and the call's result resolves to the
+// value the callee returns on that path. A refactoring that extracts a part of a function
+// into a helper therefore yields the same literal/effect streams as before.
 func (w *World) EnumPaths(fn *ssa.Function, o EnumOpts) EnumResult {
 	if o.MaxPaths == 0 {
 		o.MaxPaths = 4096
@@ -327,10 +337,15 @@ func (w *World) EnumPaths(fn *ssa.Function, o EnumOpts) EnumResult {
 		effects []Effect
 		blocks  []int
 		phi     map[*ssa.Phi]ssa.Value
-		onPath  map[int]int
+		onPath  map[*ssa.BasicBlock]int
 		mem     map[*ssa.Alloc]ssa.Value
-		order   []byte // 'L' / 'E' in program order
+		param   map[*ssa.Parameter]ssa.Value
+		calls   map[*ssa.Call][]ssa.Value
+		inl     map[*ssa.Function]bool // callees inlined on this path (each at most once)
+		order   []byte                 // 'L' / 'E' in program order
 	}
+	use := func(f *frame) { w.phiEnv, w.memEnv, w.paramEnv, w.callEnv = f.phi, f.mem, f.param, f.calls }
+	clear := func() { w.phiEnv, w.memEnv, w.paramEnv, w.callEnv = nil, nil, nil, nil }
 	finish := func(f frame, end string, rets []ssa.Value) {
 		if len(res.Paths) >= o.MaxPaths {
 			res.Truncated = true
@@ -347,20 +362,23 @@ func (w *World) EnumPaths(fn *ssa.Function, o EnumOpts) EnumResult {
 				ei++
 			}
 		}
-		w.phiEnv, w.memEnv = f.phi, f.mem
+		use(&f)
 		for i, r := range rets {
 			p.Ret = append(p.Ret, w.AP(r))
 			p.RetVals[i] = w.Resolve(r)
 		}
-		w.phiEnv, w.memEnv = nil, nil
+		clear()
 		res.Paths = append(res.Paths, p)
 	}
-	var walk func(b *ssa.BasicBlock, prev *ssa.BasicBlock, f frame)
-	walk = func(b *ssa.BasicBlock, prev *ssa.BasicBlock, f frame) {
+	// cont receives the frame at a return of an inlined callee
+	type cont func(f frame, rets []ssa.Value)
+	var walk func(b *ssa.BasicBlock, prev *ssa.BasicBlock, f frame, depth int, k cont)
+	var resume func(b *ssa.BasicBlock, from int, nf frame, exiting bool, depth int, k cont)
+	walk = func(b *ssa.BasicBlock, prev *ssa.BasicBlock, f frame, depth int, k cont) {
 		if res.Truncated {
 			return
 		}
-		visits := f.onPath[b.Index]
+		visits := f.onPath[b]
 		edgePhis := func() {
 			if prev == nil || len(res.Paths) == 0 {
 				return
@@ -373,7 +391,7 @@ func (w *World) EnumPaths(fn *ssa.Function, o EnumOpts) EnumResult {
 					pi = i
 				}
 			}
-			w.phiEnv, w.memEnv = f.phi, f.mem
+			use(&f)
 			for _, in := range b.Instrs {
 				ph, ok := in.(*ssa.Phi)
 				if !ok {
@@ -394,9 +412,9 @@ func (w *World) EnumPaths(fn *ssa.Function, o EnumOpts) EnumResult {
 					}
 				}
 			}
-			w.phiEnv, w.memEnv = nil, nil
+			clear()
 		}
-		if visits >= 2 || (visits == 1 && (b == start || o.NoLoopExit)) {
+		if visits >= 2 || (visits == 1 && ((depth == 0 && b == start) || o.NoLoopExit)) {
 			n0 := len(res.Paths)
 			finish(f, fmt.Sprintf("backedge:%d", b.Index), nil)
 			if len(res.Paths) > n0 {
@@ -404,7 +422,7 @@ func (w *World) EnumPaths(fn *ssa.Function, o EnumOpts) EnumResult {
 			}
 			return
 		}
-		if o.StopBlock != nil && b != start && o.StopBlock(b) {
+		if depth == 0 && o.StopBlock != nil && b != start && o.StopBlock(b) {
 			n0 := len(res.Paths)
 			finish(f, fmt.Sprintf("stop:%d", b.Index), nil)
 			if len(res.Paths) > n0 {
@@ -416,11 +434,17 @@ func (w *World) EnumPaths(fn *ssa.Function, o EnumOpts) EnumResult {
 		nf := frame{
 			lits:    append([]Lit(nil), f.lits...),
 			effects: append([]Effect(nil), f.effects...),
-			blocks:  append(append([]int(nil), f.blocks...), b.Index),
+			blocks:  append([]int(nil), f.blocks...),
 			order:   append([]byte(nil), f.order...),
-			phi:     map[*ssa.Phi]ssa.Value{},
-			onPath:  map[int]int{},
-			mem:     map[*ssa.Alloc]ssa.Value{},
+			phi:     make(map[*ssa.Phi]ssa.Value, len(f.phi)),
+			onPath:  make(map[*ssa.BasicBlock]int, len(f.onPath)+1),
+			mem:     make(map[*ssa.Alloc]ssa.Value, len(f.mem)),
+			param:   make(map[*ssa.Parameter]ssa.Value, len(f.param)),
+			calls:   make(map[*ssa.Call][]ssa.Value, len(f.calls)),
+			inl:     make(map[*ssa.Function]bool, len(f.inl)),
+		}
+		if depth == 0 {
+			nf.blocks = append(nf.blocks, b.Index)
 		}
 		for k, v := range f.phi {
 			nf.phi[k] = v
@@ -431,7 +455,16 @@ func (w *World) EnumPaths(fn *ssa.Function, o EnumOpts) EnumResult {
 		for k, v := range f.onPath {
 			nf.onPath[k] = v
 		}
-		nf.onPath[b.Index]++
+		for k, v := range f.param {
+			nf.param[k] = v
+		}
+		for k, v := range f.calls {
+			nf.calls[k] = v
+		}
+		for k, v := range f.inl {
+			nf.inl[k] = v
+		}
+		nf.onPath[b]++
 		// resolve phis by the edge taken
 		if prev != nil {
 			pi := -1
@@ -469,9 +502,13 @@ func (w *World) EnumPaths(fn *ssa.Function, o EnumOpts) EnumResult {
 				}
 			}
 		}
-		defer func() { w.phiEnv, w.memEnv = nil, nil }()
-		for _, in := range b.Instrs {
-			w.phiEnv, w.memEnv = nf.phi, nf.mem
+		resume(b, 0, nf, exiting, depth, k)
+	}
+	resume = func(b *ssa.BasicBlock, from int, nf frame, exiting bool, depth int, k cont) {
+		defer clear()
+		for idx := from; idx < len(b.Instrs); idx++ {
+			in := b.Instrs[idx]
+			use(&nf)
 			switch x := in.(type) {
 			case *ssa.Store:
 				if a, ok := w.resolveAddr(x.Addr).(*ssa.Alloc); ok {
@@ -527,23 +564,61 @@ func (w *World) EnumPaths(fn *ssa.Function, o EnumOpts) EnumResult {
 					nf.effects = append(nf.effects, Effect{Kind: kind, Target: tgt, Val: strings.Join(args, ","), In: in, Callee: c.StaticCallee()})
 					nf.order = append(nf.order, 'E')
 				}
+				// inline a small module helper
+				if call, ok := in.(*ssa.Call); ok && !exiting && o.Inline && depth < 2 {
+					if callee := c.StaticCallee(); callee != nil && !nf.inl[callee] && callee != fn && w.inlinable(callee) {
+						// bind the parameters to the caller's argument values (resolved in the caller's context)
+						g := nf
+						g.param = make(map[*ssa.Parameter]ssa.Value, len(nf.param)+len(callee.Params))
+						for k2, v := range nf.param {
+							g.param[k2] = v
+						}
+						g.inl = make(map[*ssa.Function]bool, len(nf.inl)+1)
+						for k2, v := range nf.inl {
+							g.inl[k2] = v
+						}
+						g.inl[callee] = true
+						for i, prm := range callee.Params {
+							if i < len(c.Args) {
+								g.param[prm] = w.Resolve(c.Args[i])
+							}
+						}
+						clear()
+						next := idx + 1
+						walk(callee.Blocks[0], nil, g, depth+1, func(f2 frame, rets []ssa.Value) {
+							use(&f2)
+							rs := make([]ssa.Value, len(rets))
+							for i, r := range rets {
+								rs[i] = w.Resolve(r)
+							}
+							clear()
+							f2.calls[call] = rs
+							resume(b, next, f2, false, depth, k)
+						})
+						return
+					}
+				}
 			case *ssa.Return:
-				w.phiEnv, w.memEnv = nil, nil
+				clear()
+				if depth > 0 && k != nil {
+					k(nf, append([]ssa.Value(nil), x.Results...))
+					return
+				}
 				finish(nf, "return", append([]ssa.Value(nil), x.Results...))
 				return
 			case *ssa.Panic:
-				w.phiEnv, w.memEnv = nil, nil
+				clear()
 				finish(nf, "panic", nil)
 				return
 			case *ssa.If:
-				w.phiEnv, w.memEnv = nil, nil
+				clear()
 				if exiting {
 					// leave the loop: only successors not on the path yet
 					took := false
 					for si, sc := range b.Succs {
-						if nf.onPath[sc.Index] == 0 {
+						if nf.onPath[sc] == 0 {
 							took = true
-							walk(b.Succs[si], b, nf)
+							walk(b.Succs[si], b, nf, depth, k)
 						}
 					}
 					if !took {
@@ -551,9 +626,10 @@ func (w *World) EnumPaths(fn *ssa.Function, o EnumOpts) EnumResult {
 					}
 					return
 				}
-				w.branch(x, nf.phi, nf.mem, func(succ int, lit *Lit) {
+				w.branch(x, nf.phi, nf.mem, nf.param, nf.calls, func(succ int, lit *Lit) {
 					g := nf
 					if lit != nil {
+						lit.Inl = depth > 0
 						if !o.NoPrune {
 							for _, l := range g.lits {
 								if l.Atom == lit.Atom && l.Val != lit.Val && lit.Pure && !storedBetween(g.effects, l, lit.Atom) {
@@ -565,22 +641,70 @@ func (w *World) EnumPaths(fn *ssa.Function, o EnumOpts) EnumResult {
 						g.lits = append(append([]Lit(nil), nf.lits...), *lit)
 						g.order = append(append([]byte(nil), nf.order...), 'L')
 					}
-					walk(b.Succs[succ], b, g)
+					walk(b.Succs[succ], b, g, depth, k)
 				})
 				return
 			case *ssa.Jump:
-				w.phiEnv, w.memEnv = nil, nil
-				walk(b.Succs[0], b, nf)
+				clear()
+				walk(b.Succs[0], b, nf, depth, k)
 				return
 			}
 		}
-		w.phiEnv, w.memEnv = nil, nil
+		clear()
 		if len(b.Succs) == 0 {
 			finish(nf, "exit", nil)
 		}
 	}
-	walk(start, nil, frame{phi: map[*ssa.Phi]ssa.Value{}, onPath: map[int]int{}, mem: map[*ssa.Alloc]ssa.Value{}})
+	walk(start, nil, frame{phi: map[*ssa.Phi]ssa.Value{}, onPath: map[*ssa.BasicBlock]int{}, mem: map[*ssa.Alloc]ssa.Value{}}, 0, nil)
 	return res
+}
+
+// inlinable: a static callee whose body EnumPaths splices into the caller's paths. Only
+// source functions of the module that are not anchors of a rule (World.noInline: the role
+// functions), that take a pointer to a module struct (receiver or parameter: they can touch
+// the shared state a rule reasons about), have no defer/recover and are small.
+func (w *World) inlinable(f *ssa.Function) bool {
+	if v, ok := w.inlMemo[f]; ok {
+		return v
+	}
+	if w.inlMemo == nil {
+		w.inlMemo = map[*ssa.Function]bool{}
+	}
+	ok := func() bool {
+		if f == nil || f.Blocks == nil || f.Synthetic != "" || !w.InModule(f) || len(f.Blocks) > 24 {
+			return false
+		}
+		if w.noInline != nil && w.noInline(f) {
+			return false
+		}
+		if f.Signature.Variadic() || len(f.FreeVars) > 0 {
+			return false
+		}
+		takesState := false
+		for _, p := range f.Params {
+			if pt, ok := p.Type().Underlying().(*types.Pointer); ok {
+				if n, ok := pt.Elem().(*types.Named); ok && n.Obj().Pkg() != nil && w.InModulePkg(n.Obj().Pkg()) {
+					if _, ok := n.Underlying().(*types.Struct); ok {
+						takesState = true
+					}
+				}
+			}
+		}
+		if !takesState {
+			return false
+		}
+		for _, b := range f.Blocks {
+			for _, in := range b.Instrs {
+				switch in.(type) {
+				case *ssa.Defer, *ssa.RunDefers, *ssa.Select:
+					return false
+				}
+			}
+		}
+		return true
+	}()
+	w.inlMemo[f] = ok
+	return ok
 }
 
 // pureValue: v is computed from memory loads, constants and operators only — no call whose
@@ -640,10 +764,10 @@ func storedBetween(effects []Effect, l Lit, a Atom) bool {
 
 // branch evaluates the condition of an If along the current path and calls take for each
 // feasible successor with the literal that holds on it (nil when the condition is constant).
-func (w *World) branch(x *ssa.If, phi map[*ssa.Phi]ssa.Value, mem map[*ssa.Alloc]ssa.Value, take func(succ int, lit *Lit)) {
-	w.phiEnv, w.memEnv = phi, mem
+func (w *World) branch(x *ssa.If, phi map[*ssa.Phi]ssa.Value, mem map[*ssa.Alloc]ssa.Value, param map[*ssa.Parameter]ssa.Value, calls map[*ssa.Call][]ssa.Value, take func(succ int, lit *Lit)) {
+	w.phiEnv, w.memEnv, w.paramEnv, w.callEnv = phi, mem, param, calls
 	op, l, r, neg, konst := w.condAtom(x.Cond, 0)
-	w.phiEnv, w.memEnv = nil, nil
+	w.phiEnv, w.memEnv, w.paramEnv, w.callEnv = nil, nil, nil, nil
 	if konst != nil {
 		v := *konst
 		if neg {
@@ -657,9 +781,9 @@ func (w *World) branch(x *ssa.If, phi map[*ssa.Phi]ssa.Value, mem map[*ssa.Alloc
 		return
 	}
 	at, tv := canonAtom(op, l, r, !neg)
-	w.phiEnv, w.memEnv = phi, mem
+	w.phiEnv, w.memEnv, w.paramEnv, w.callEnv = phi, mem, param, calls
 	pure := w.pureValue(x.Cond, 0)
-	w.phiEnv, w.memEnv = nil, nil
+	w.phiEnv, w.memEnv, w.paramEnv, w.callEnv = nil, nil, nil, nil
 	take(0, &Lit{Atom: at, Val: tv, At: x, Pure: pure})
 	take(1, &Lit{Atom: at, Val: !tv, At: x, Pure: pure})
 }
